@@ -163,8 +163,8 @@ impl ExtensionStore {
             .components
             .into_iter()
             .map(|complex| {
-                if complex.components.len() == 1 {
-                    Ok(complex.components.first().unwrap().as_compound().clone())
+                if let [ComplexSelectorComponent::Compound(compound)] = &*complex.components {
+                    Ok(compound.clone())
                 } else {
                     Err((format!("Can't extend complex selector {}.", complex), span).into())
                 }
